@@ -20,6 +20,10 @@ EXPLANATION = ('R01.1 coefficient matrices == reference (linearity shown first);
                'R01.3 dispatch agreement (class, number of solutions, number of ys); R01.5 Love extraction (k, h, l) = (y5 - 1, g y1, g y3) of the surface row; R01.7/R01.8 the interpreted sibling solver and its propagator matrices against the same references; R01.9 every class conserves the bilinear concomitant of two solutions; R01.10 Kelvin closed form from exact solutions; R01.11 on the executed driver the stored Love numbers are find_love_cf of the assembled surface row of their own solution type; R01.12 the assembled solution of every layer lies in the span of the integrated solutions of that layer; R01.13 material wiring: the solver object cf_build_solver builds, with its real update_interp, integrates the reference system with every property interpolated from its own array; R01.14 the driver hands cf_build_solver the slices of its own arrays that belong to the layer; R01.15 the Python entry point hands every argument to the like-named parameter of the compiled driver; R01.16 the assembled solution the Love numbers are read from meets the requested surface condition (dimensional and non-dimensionalised runs); R01.17 no loop index of the solver is narrower than its bound.')
 
 
+TECHNIQUE += '; readers of the Love-number buffer (.love, .k, .h, .l) evaluated on a buffer of distinct tokens'
+
+EXPLANATION += ' R01.19 the accessors .love / .k / .h / .l hand back, for every requested type, the three numbers the driver stored for that type.'
+
 def run(chk):
     repo = Repo(chk.repo)
     mo = repo.by_path('TidalPy/RadialSolver/derivatives/odes.pyx')
